@@ -183,7 +183,8 @@ def str_consts(body):
     """all &str constants mentioned in a body"""
     out = []
     def scan(o, line):
-        if o and o[0] == "k" and isinstance(o[2], str) and o[1].startswith("&"):
+        if o and o[0] == "k" and isinstance(o[2], str) and o[1].replace("'static ", "") in ("&str", "&&str", "&&&str") \
+                or o and o[0] == "k" and isinstance(o[2], str) and o[1].startswith("&[u8"):
             out.append((o[2], line))
     for bi, blk in enumerate(body.blocks):
         for s in blk["s"]:
